@@ -185,6 +185,31 @@ def run_wide(acc, enf, job):
                             exp, got, 'wide')
                     acc.outcome('allow' if exp else 'deny')
                 acc.case('wide', k >= 2)
+    # credentials that also carry keys SPELLED like a whole dotted path (or a
+    # part of one): a path is walked segment by segment, such a key is just
+    # another attribute
+    decoys = [{'a.b': 'x'}, {'a.b': 'x', 'a': {'b': 'y'}},
+              {'a.b': 'y', 'a': {'b': 'x'}}, {'a': {'b.c': 'x'}},
+              {'a': {'b.c': 'y', 'b': {'c': 'x'}}}, {'a.b.c': 'x', 'a.b': 'x'},
+              {'a.b': {'c': 'x'}}, {'a': [{'b.c': 'x'}, {'b': 'y'}]},
+              {'.': 'x', '': {'': 'x'}, 'a.': 'x', '.b': 'x'}]
+    for (left, right), tree in itertools.product(cks, decoys):
+        text = '%s:%s' % (left, right)
+        world.set_rules(enf, {'p': text})
+        target = {'t': 'x'}
+        exp = rleaf.generic_allows(left, right, target, tree)
+        acc.ev()
+        got = world.decide(enf, 'p', target, tree)
+        acc.case('wide', True)
+        if got != ('ok', exp):
+            acc.violation(
+                'wide|dotted-key|%s' % ('allows' if got == ('ok', True)
+                                        else 'denies' if got[0] == 'ok'
+                                        else got[1]),
+                '%s against %r: got %r, reference %r' % (text, tree, got, exp),
+                {'check': text, 'creds': tree, 'target': target}, exp, got,
+                'wide')
+        acc.outcome('allow' if exp else 'deny')
     acc.sample('wide', {'elements': elems})
     return acc.result()
 
